@@ -673,7 +673,10 @@ class Emitter:
             return self.tr(recv, env, cx, lambda bt, _: f"if {bt} then {self.apply_closure(args[0], [], env, cx, lambda t, ty: k(f'(Some {t})', ('opt', ty)))} else {k('None', ('opt', '?'))}")
         def after(rt, rty):
             tyname = rty[1] if isinstance(rty, tuple) and rty[0] == "named" else None
-            if tyname and (tyname, base) in self.u.fns and base != "tokens":
+            if tyname == "Token" and base == "try_into" and not args and ("IndexFromRefToken", "try_from") in self.u.fns:
+                # `token.try_into()` at type Result<Index, _>: impl TryFrom<&Token<'_>> for Index
+                return self.call_generated_terms(("IndexFromRefToken", "try_from"), [(rt, rty)], cx, k, env)
+            if tyname and (tyname, base) in self.u.fns and base not in ("tokens", "to_index"):
                 # (`p.tokens()` stays the primitive [str_tokens] in callers; Proofs/GenEquivPtrOps.v proves the translated
                 #  Pointer::tokens + Tokens::next to produce exactly that list)
                 return self.call_generated((tyname, base), [(rt, rty)], args, env, cx, k)
@@ -1745,6 +1748,11 @@ CONFIG = {
             {"file": "src/index.rs", "impl": "ParseIndexError", "trait": "From<ParseIntError>", "name": "from", "coq": "gen_ParseIndexError_from"},
             {"file": "src/index.rs", "impl": "Index", "trait": "FromStr", "name": "from_str", "coq": "gen_Index_from_str",
              "ret": ("res", ("named", "Index"), ("named", "ParseIndexError"))},
+            # Token::to_index = self.try_into() = <Index as TryFrom<&Token>>::try_from = Index::from_str(token.encoded())
+            {"file": "src/index.rs", "impl": "Index", "trait_exact": "TryFrom<&Token<'_>>", "name": "try_from", "coq": "gen_Index_try_from_ref_Token",
+             "self_ty": "IndexFromRefToken", "ret": ("res", ("named", "Index"), ("named", "ParseIndexError"))},
+            {"file": "src/token.rs", "impl": "Token", "name": "to_index", "coq": "gen_Token_to_index"},
+            {"file": "src/token.rs", "impl": "Token", "name": "is_next", "coq": "gen_Token_is_next"},
         ]),
         ("Buf", [
             {"file": "src/pointer.rs", "impl": "PointerBuf", "name": "push_front", "coq": "gen_PointerBuf_push_front", "mut_self": True},
@@ -1821,7 +1829,7 @@ CONFIG = {
         ]),
     ],
     # which earlier groups a group's functions call (imports of the generated file)
-    "deps": {"Cmp": ["=Value"], "PtrOps": ["Token"], "TreeMut": ["Token", "PtrOps", "Slice", "Index", "=GenTreePrelude", "Tree"], "Slice": ["PtrOps"], "Buf": ["Token", "PtrOps"], "PtrBuild": ["Token", "PtrOps", "Buf"], "Index": ["=GenTreePrelude"], "Tree": ["Token", "PtrOps", "Slice", "Index", "=GenTreePrelude"]},
+    "deps": {"Cmp": ["=Value"], "PtrOps": ["Token"], "TreeMut": ["Token", "PtrOps", "Slice", "Index", "=GenTreePrelude", "Tree"], "Slice": ["PtrOps"], "Buf": ["Token", "PtrOps"], "PtrBuild": ["Token", "PtrOps", "Buf"], "Index": ["Token", "=GenTreePrelude"], "Tree": ["Token", "PtrOps", "Slice", "Index", "=GenTreePrelude"]},
     # fuel for `while` loops: (generated function, nesting depth) -> Gallina term over the parameters
     "fuel": {("gen_validate_bytes", 0): "S (length bytes)",
              ("gen_json_resolve", 0): "S (length ptr)", ("gen_json_resolve_mut", 0): "S (length ptr)",
